@@ -65,8 +65,11 @@ class Gen:
     """cycles=False keeps the reference graph a DAG with self-loops only inside arrays (the shapes that import today);
     cycles=True also draws back edges / optional self references (findings F01a/F01b)."""
 
-    def __init__(self, rng, cycles: bool = False, hazards: bool = False):
+    def __init__(self, rng, cycles: bool = False, hazards: bool = False, extra=None):
         self.rng, self.cycles, self.hazards = rng, cycles, hazards
+        # separate stream for the name-collision families and the multi-spelling tags, so that adding such shapes
+        # does not shift the documents drawn from the main stream
+        self.extra = extra
         self.inline_names: set[str] = set()   # property names already used for an inline object (F01i hazard)
 
     def prim(self) -> dict:
@@ -104,7 +107,7 @@ class Gen:
                 pn = rng.choice(PROPS)
                 ps = self.schema_ref_or_inline(names, i, depth + 1)
                 if not self.hazards and promotable(ps):
-                    if pn in self.inline_names:
+                    if pn in self.inline_names or norm(pn) in {norm(x) for x in names}:
                         ps = self.prim()
                     else:
                         self.inline_names.add(pn)
@@ -126,7 +129,7 @@ class Gen:
         for p in rng.sample(pool, rng.randint(1, 6)):
             ps = self.schema_ref_or_inline(names, i)
             if not self.hazards and promotable(ps):
-                if p in self.inline_names:
+                if p in self.inline_names or norm(p) in {norm(x) for x in names}:
                     ps = self.prim()
                 else:
                     self.inline_names.add(p)
@@ -168,6 +171,19 @@ class Gen:
                 out[n] = self.prim()
             else:
                 out[n] = self.object_schema(names, i)
+        # name-collision families: two names that sanitise to the same module stem plus names whose NATURAL stem is
+        # the suffixed one (Item / item / Item2 / Item_2): the de-collision must probe the stems already handed out
+        if self.extra is not None and self.extra.random() < 0.3:
+            rng = self.extra
+            base = rng.choice(["Item", "Foo-Bar", "User", "Thing", "Data_Set"])
+            variants = {"Item": ["item", "Item2", "Item_2", "ITEM"], "Foo-Bar": ["FooBar", "FooBar2", "foo_bar", "Foo_Bar_2"],
+                        "User": ["user", "user_2", "User2"], "Thing": ["thing", "Thing2", "thing_2", "Thing_2_2"],
+                        "Data_Set": ["DataSet", "dataSet", "DataSet2", "data_set_2"]}[base]
+            fam = [base] + rng.sample(variants, rng.randint(2, len(variants)))
+            fam = [f for f in fam if f not in out]
+            for k, f in enumerate(fam):
+                out[f] = {"type": "object", "properties": {f"p{k}": {"type": "string"}}}
+            out["Holder" if "Holder" not in out else "Holder9"] = {"type": "object", "properties": {f"f{k}": R(f) for k, f in enumerate(fam)}}
         return out
 
     def body_or_resp_schema(self, names: list[str]) -> dict:
@@ -247,8 +263,20 @@ class Gen:
                 continue
             item[m] = self.operation(names, f"{m}{seg.capitalize()}{'ById' if with_id else ''}{k}", [seg[:-1] + "_id"] if with_id else [])
             k += 1
+        # one tag spelled in two ways that normalise to the same key but give different module / argument names
+        # (datasources vs DataSources), used by unequal numbers of operations: every emitter must pick the same spelling
+        all_ops = [op for item in paths.values() for op in item.values()]
+        if self.extra is not None and len(all_ops) >= 3 and self.extra.random() < 0.5:
+            rng = self.extra
+            low, camel = rng.choice(SPELLINGS)
+            major, minor = (low, camel) if rng.random() < 0.5 else (camel, low)
+            chosen = rng.sample(all_ops, 3 if len(all_ops) < 4 or rng.random() < 0.6 else 4)
+            for k, op in enumerate(chosen):
+                op["tags"] = [minor if k == 0 else major]
         return pipeline.base_spec(paths=paths, schemas=schemas)
 
+
+SPELLINGS = [("datasources", "DataSources"), ("useritems", "UserItems"), ("petstore", "PetStore"), ("apikeys", "ApiKeys")]
 
 LAYOUTS = [("client", None), ("a.client", None), ("a.b.client", None), ("client", "core"), ("a.client", "shared.core"),
            ("a.b.client", "a.b.core"), ("a.b.client", "a.rt.core")]
@@ -369,9 +397,17 @@ def inline_object_props(s: Any):
             yield from inline_object_props(v)
 
 
-def guard_inline_name_collision(doc: dict, layout: tuple) -> bool:   # F01i
-    names = list(inline_object_props((doc.get("components") or {}).get("schemas") or {}))
-    return len(names) != len(set(names))
+def norm(n: str) -> str:
+    return re.sub(r"[^a-z0-9]", "", str(n).lower())
+
+
+def guard_inline_name_collision(doc: dict, layout: tuple) -> bool:
+    """F01i: two promoted inline property schemas with the same property name, or one named like a declared schema
+    (Square.name.owner next to a declared Owner)"""
+    sch = (doc.get("components") or {}).get("schemas") or {}
+    names = list(inline_object_props(sch))
+    declared = {norm(n) for n in sch}
+    return len(names) != len(set(names)) or any(norm(p) in declared for p in names)
 
 
 STREAMING = ("application/octet-stream", "text/event-stream", "application/x-ndjson")
@@ -427,12 +463,20 @@ def guard_non_error_status(doc: dict, layout: tuple) -> bool:   # F06d: a declar
     return False
 
 
-def guard_case_variant_tags(doc: dict, layout: tuple) -> bool:  # F13b
+def snake(t: str) -> str:
+    """the argument / module name a tag turns into: camel humps and separators become underscores"""
+    t = re.sub(r"(?<=[a-z0-9])(?=[A-Z])", "_", t)
+    return re.sub(r"_+", "_", re.sub(r"[^A-Za-z0-9]", "_", t)).strip("_").lower()
+
+
+def guard_case_variant_tags(doc: dict, layout: tuple) -> bool:
+    """F13b: two different spellings of a tag that collapse to ONE mock argument name (Users/users,
+    data-sources/DataSources).  Spellings that stay distinct (datasources/DataSources) are NOT covered."""
     tags = {t for _, _, _, op in ops_of(doc) for t in (op.get("tags") or []) if isinstance(t, str)}
-    low: dict[str, set] = {}
+    seen: dict[str, set] = {}
     for t in tags:
-        low.setdefault(re.sub(r"[^a-z0-9]", "", t.lower()), set()).add(t)
-    return any(len(v) > 1 for v in low.values())
+        seen.setdefault(snake(t), set()).add(t)
+    return any(len(v) > 1 for v in seen.values())
 
 
 def guard_keyword_schema_name(doc: dict, layout: tuple) -> bool:   # F20a
@@ -876,10 +920,12 @@ def main(chk: Check, replay: dict | None = None) -> int:
     for c in load_corpus("C01"):
         i = c["input"]
         jobs.append((i["doc"], tuple(i["layout"]), i.get("naming"), "corpus"))
-    n_clean = 150 if chk.thorough else 34
+    n_clean = 150 if chk.thorough else 30
     n_cyc = 60 if chk.thorough else 10
     for k in range(n_clean):
-        jobs.append((Gen(rng).document(), LAYOUTS[k % len(LAYOUTS)], NAMING[(k // len(LAYOUTS)) % len(NAMING)], "dag"))
+        import random as _random
+        jobs.append((Gen(rng, extra=_random.Random(f"{chk.seed}:{k}")).document(), LAYOUTS[k % len(LAYOUTS)],
+                     NAMING[(k // len(LAYOUTS)) % len(NAMING)], "dag"))
     for k in range(n_cyc):
         jobs.append((Gen(rng, cycles=(k % 2 == 0), hazards=True).document(), LAYOUTS[k % 3], None, "hazard"))
     import prop_C12
